@@ -15,8 +15,8 @@ CLAIMS = {
          "Coq proof (invariant by induction over operation lists) + model/implementation correspondence"),
  "C13": ("proof", "7.13", "Coq: bit-level write/read specifications of the per-byte chunk loops, round trip for any field sequence that fits, contiguity, locality, zeros past the cursor, "
          "bitWidth exact for all 32-bit arguments, width suffices for every state count. Correspondence: real BitWriteStreamT/BitReadStreamT/bitWidth vs the extracted model on every "
-         "(offset, width) pair and random sequences; abstract bit-sequence oracle over implementation results.",
-         "Coq proof (N.testbit-level induction on the chunk loop) + model/implementation correspondence"),
+         "(offset, width) pair and random sequences; abstract bit-sequence oracle over implementation results. Source tie by proof (DESIGN.md 4.7): bitWidth, write<W>/read<W> for all three item types, StreamBufferT size and comparison operators are translated from clang's typed AST of the current source on every run (tools/leafcode.py) and proved equal to the model for every argument (Proofs/LeafCodeBits.v, LeafCodeStream.v, LeafCodeWide.v, LeafCodeBuffer.v); a translation that differs from the committed one is re-proved in a scratch copy.",
+         "Coq proof (N.testbit-level induction on the chunk loop; translated source proved equal to the model) + model/implementation correspondence"),
  "C14": ("proof", "7.14", "Coq: LowerT/UpperT are firstn/skipn, the CS_ halving reaches the k-th declared state with STATE_ID = k for lists of any length (strong induction), FindImpl gives the "
          "declaration position, absent types get the invalid id. Correspondence: one real machine per state count (all twelve callback kinds, stateId<T>(), access<T>() identity) vs the extracted machine model.",
          "Coq proof (strong induction on the state list) + per-N implementation runs compared with the model"),
@@ -24,8 +24,8 @@ CLAIMS = {
          "each, for every k. Correspondence: real machines with 0..3 injected bases on states and root vs the extracted model; order monitor over implementation traces.",
          "Coq proof (induction on the number of injections) + model/implementation correspondence"),
  "C20": ("proof", "7.20", "Coq: BitArrayT get/set/clear/set-all/clear-all/and-assign laws, empty() iff no member under the padding invariant, invariant preserved by every operation, for every "
-         "capacity; StaticArrayT/DynamicArrayT laws incl. iteration order with the uint8_t cursor. Correspondence: the real containers vs the extracted model; abstract set/list oracle.",
-         "Coq proof (byte-level lemmas, induction) + model/implementation correspondence"),
+         "capacity; StaticArrayT/DynamicArrayT laws incl. iteration order with the uint8_t cursor. Correspondence: the real containers vs the extracted model; abstract set/list oracle. Source tie by proof (DESIGN.md 4.7): every BitArrayT member (get/set/clear, set(), clear(), empty(), operator&, operator&=, UNIT_COUNT) for both index classes (N <= 255, N <= 65535) is translated from clang's typed AST of the current source on every run (tools/leafcode.py) and proved equal to the model for every capacity, content and index (Proofs/LeafConsts.v, LeafCodeProofs.v, LeafCodeArrays.v).",
+         "Coq proof (byte-level lemmas, induction; translated source of BitArrayT proved equal to the model) + model/implementation correspondence"),
 }
 
 WH = (" Lifted to every call of every in-contract history from construction (Proofs/Histories.v: at_every_call, every_processing_step_of_every_history). ")
